@@ -21,7 +21,7 @@ struct Ext1 { u8 size; u16 pad; u16 x<@size>; };
 struct ExtS { i16 n; u8 pad; OptSize y<@n>; u8 tail; };
 struct LimOpt { Lim* o; u8 t; };
 struct O16 { u16* o; u8 z; };
-struct W64 { u64 big<>; };
+struct W64 { u64 bigs<>; };
 struct GrD { u8 a; Dy g<...>; };
 struct T5 { u64 x; u8 a<>; u8 b; };
 struct WideCnt { u64 n; u32 x<@n>; u8 t; };
